@@ -64,6 +64,13 @@ Definition reduce_run (t : nat) (p : rpolicy) (es : list (expr (T:=T))) : rstate
   let st1 := fold_left (racc_step t (rp_acc p)) es st0 in
   if rp_fin_needed p then rfin_step t (length es) (rp_fin p) st1 else st1.
 Definition reduce_active (t : nat) (k : rkind) (es : list (expr (T:=T))) : rstate := reduce_run t (reduce_policy k) es.
+(* reduce_dimension for an active argument (reduce.h): one temporary Active `total` (gradient index tt) is reduced per
+   strip and then assigned to the result element (index r): result.get_lvalue(inew) = total records d r = 1 * d tt *)
+Definition reduce_dim_tape (tt : nat) (p : rpolicy) (strips : list (nat * list (expr (T:=T)))) : tape (T:=T) :=
+  concat (map (fun rs => r_tape (reduce_run tt p (snd rs)) ++ [mkStmt (fst rs) [(o1 O, tt)]]) strips).
+Definition reduce_dim_values (tt : nat) (p : rpolicy) (strips : list (nat * list (expr (T:=T)))) : list (nat * T) :=
+  map (fun rs => (fst rs, r_total (reduce_run tt p (snd rs)))) strips.
+
 (* operations pushed under the single reservation made before the loop (the finishing assignments reserve their own) *)
 Definition op_count (st : rstate) : nat := length (concat (map (@rhs T) (r_tape st))) + length (r_pending st).
 Definition ops_in_loop (t : nat) (p : rpolicy) (es : list (expr (T:=T))) : nat :=
